@@ -323,17 +323,20 @@ def run_check(mod, tier: str, seed: int, replay: Optional[str] = None) -> int:
     rc = 0
     out_lines = []
     os.makedirs(os.path.join(VERIF, "replays"), exist_ok=True)
-    shrink_key = getattr(mod, "SHRINK_KEY", "ops")
+    shrink_keys = getattr(mod, "SHRINK_KEY", "ops")
+    if isinstance(shrink_keys, str):
+        shrink_keys = [shrink_keys]
     for n, (sig, v) in enumerate(sorted(viols.items())):
         case = v["case"]
-        if n < 6 and isinstance(case, dict) and isinstance(case.get(shrink_key), list) and len(case[shrink_key]) > 1:
-            def rep(c, sig=sig):
-                return any(s == sig for s, _ in mod.run_case(c).violations)
+        for shrink_key in shrink_keys:
+            if n < 6 and isinstance(case, dict) and isinstance(case.get(shrink_key), list) and len(case[shrink_key]) > 1:
+                def rep(c, sig=sig):
+                    return any(s == sig for s, _ in mod.run_case(c).violations)
 
-            try:
-                case = ddmin_ops(case, shrink_key, rep, budget=120 if tier == "quick" else 400)
-            except Exception:
-                pass
+                try:
+                    case = ddmin_ops(case, shrink_key, rep, budget=80 if tier == "quick" else 300)
+                except Exception:
+                    pass
         path = os.path.join("replays", f"{prop}-{jhash(sig)}.json")
         with open(os.path.join(VERIF, path), "w") as fh:
             json.dump({"property": prop, "signature": sig, "message": v["msg"], "case": case}, fh, indent=1, default=str)
